@@ -97,13 +97,15 @@ type RefClient struct {
 	LostInStray map[string]string
 	// LostAfterGet: the stray event that carried the rid was one flushed after
 	// a get response (finding K)
-	LostAfterGet   map[string]bool
-	Unsubs         []UnsubCheck
-	Debug          bool
-	Redundant      int // resources re-sent although already held
-	GetRootMissing int
-	Frames         int
-	Events         int
+	LostAfterGet map[string]bool
+	Unsubs       []UnsubCheck
+	Debug        bool
+	Redundant    int // resources re-sent although already held
+	// UnsubEventOnPending counts unsubscribe events for a rid on which only a request in progress existed
+	UnsubEventOnPending int
+	GetRootMissing      int
+	Frames              int
+	Events              int
 	// Overlap reports whether another request on the same rid is outstanding
 	// (set by the driver; nil = never).
 	Overlap func(rid string, id uint64) bool
@@ -709,7 +711,27 @@ func (rc *RefClient) processEvent(f *Frame) {
 			rc.viol("C06", f.T, rid, "unsubNoReason", "unsubscribe event without reason: %s", f.Raw)
 		}
 		if rc.Direct[rid] == 0 && rc.Extra[rid] == 0 {
-			rc.viol("C08", f.T, rid, "unsubEventNoDirect", "unsubscribe event for %s although the client has no direct subscription", rid)
+			// a subscribe/get on the rid, or a call/auth/new whose response may
+			// name it, that is still unanswered counts as a direct subscription
+			// at the gateway from the moment it is received: the event then
+			// announces the end of that one
+			pendingOnRID := false
+			for id, sr := range rc.sent {
+				if sr.Fence || rc.Responses[id] != 0 {
+					continue
+				}
+				switch action, r, _ := methodParts(sr.Method); action {
+				case "subscribe", "get":
+					pendingOnRID = pendingOnRID || r == rid
+				case "call", "auth", "new":
+					pendingOnRID = true
+				}
+			}
+			if pendingOnRID {
+				rc.UnsubEventOnPending++
+			} else {
+				rc.viol("C08", f.T, rid, "unsubEventNoDirect", "unsubscribe event for %s although the client has no direct subscription", rid)
+			}
 		}
 		rc.Direct[rid] = 0
 		rc.Extra[rid] = 0
